@@ -438,8 +438,8 @@ class MultiFit(FitBase):
                         continue
                 _name_is_unique = True
 
-        _error_dict = dict(err=error_object, enabled=True, axis=axis, reference_name=reference)
-        self._shared_error_dicts[name] = _error_dict
+        # validate everything before the error is registered anywhere
+        _targets = []
         for _fit_index in error_object.fit_indices:
             _fit = self._fits[_fit_index]
             if reference == "data":
@@ -447,7 +447,16 @@ class MultiFit(FitBase):
             elif reference == "model":
                 _target = _fit._param_model
             else:
-                raise ValueError()
+                raise ValueError("Error reference must be either 'model' or 'data' but received %s" % reference)
+            if error_object.error.shape[0] != _target.size:
+                raise ValueError("Error must have size %s but received error with size %s" % (_target.size, error_object.error.shape[0]))
+            if name in _target._error_dicts:
+                raise ValueError("Fit %s already has an error with name=%s!" % (_fit_index, name))
+            _targets.append(_target)
+
+        _error_dict = dict(err=error_object, enabled=True, axis=axis, reference_name=reference)
+        self._shared_error_dicts[name] = _error_dict
+        for _target in _targets:
             _target._add_error_object(name=name, error_object=error_object, axis=axis)
         self._on_error_change()
         return name
